@@ -398,7 +398,16 @@ func sameAddr(a, b ssa.Value) bool {
 	fa, ok1 := a.(*ssa.FieldAddr)
 	fb, ok2 := b.(*ssa.FieldAddr)
 	if ok1 && ok2 && fa.Field == fb.Field {
-		return sameAddr(fa.X, fb.X) || sameValue(fa.X, fb.X)
+		if sameAddr(fa.X, fb.X) || sameValue(fa.X, fb.X) {
+			return true
+		}
+		// the same object seen from a walked-through helper (its parameter) and from its caller
+		if curPath != nil {
+			if ra, rb := rvAny(fa.X), rvAny(fb.X); (ra != fa.X || rb != fb.X) && (ra == rb || sameValue(ra, rb)) {
+				return true
+			}
+		}
+		return false
 	}
 	// the same element of the same slice: x[i] read twice
 	ia, ok3 := a.(*ssa.IndexAddr)
